@@ -19,7 +19,6 @@ package generators
 import (
 	"fmt"
 	"io"
-	"path/filepath"
 	"sort"
 	"strings"
 
@@ -210,7 +209,10 @@ func Packages(context *generator.Context, arguments *args.GeneratorArgs) generat
 			}
 			packages = append(packages,
 				&generator.DefaultPackage{
-					PackageName: strings.Split(filepath.Base(pkg.Path), ".")[0],
+					// The generated file joins the input package: it must say the
+					// name the package declares, which need not be the name of
+					// its directory.
+					PackageName: pkg.Name,
 					PackagePath: path,
 					HeaderText:  header,
 					GeneratorFunc: func(c *generator.Context) (generators []generator.Generator) {
